@@ -126,9 +126,13 @@ class _InMemoryFeedback(Feedback):
             f'At least one measurement should be added for trial {self.id}.')
       self._trial.status = 'COMPLETED'
     self._trial.final_measurement = self._trial.measurements[-1]
-    self._feedback_fn(self.dna, self._trial)
     self._trial.metadata.update(metadata or {})
-    self._study._complete_trial(self._trial)  # pylint: disable=protected-access
+    try:
+      self._feedback_fn(self.dna, self._trial)
+    finally:
+      # NOTE: the trial has left PENDING: it is accounted for even when the
+      # algorithm fails to take the feedback.
+      self._study._complete_trial(self._trial)  # pylint: disable=protected-access
 
   def skip(self, reason: Optional[str] = None) -> None:
     """Skips current trial without providing feedback to the controller."""
@@ -217,8 +221,9 @@ class _InMemoryResult(Result):
         best = self._best_trial
         if (best is None or (
             trial.final_measurement.reward is not None
-            and best.final_measurement.reward
-            < trial.final_measurement.reward)):
+            and (best.final_measurement.reward is None
+                 or best.final_measurement.reward
+                 < trial.final_measurement.reward))):
           self._best_trial = trial
       self._last_update_time = datetime.datetime.now(tz=datetime.timezone.utc)
 
